@@ -496,7 +496,11 @@ struct World
       w.push_back(static_cast<wchar_t>(c));
     }
     std::string const utf8 = sim::utf8_encode(w);
-    std::locale const &loc = sim::sim_locale();
+    // real=1: the plain C.utf8 locale without the simulated facet in between
+    static std::locale const real_locale("C.utf8");
+    std::locale const &loc = op.get("real") != 0 ? real_locale : sim::sim_locale();
+    if (op.get("real") != 0)
+      ctx.probe("cvt_through_real_facet_only");
     long const window = op.get("window", 0);
     long const ferr = op.get("ferr", -1);
     // narrow
@@ -743,6 +747,8 @@ void generate(sim::Rng &rng, sim::Plan &p, bool)
       // short strings are over-represented: the initial buffer is then smaller than one character
       long const n = rng.chance(1, 2) ? static_cast<long>(rng.range(0, 3)) : static_cast<long>(rng.below(41));
       op = sim::Op("cvt").set("vs", vs).set("n", n);
+      if (!faulty && rng.chance(1, 2))
+        op.set("real", 1);
       if (faulty)
       {
         unsigned const f = static_cast<unsigned>(rng.below(6));
